@@ -243,7 +243,11 @@ fn relevant(f: &Finding, prop: &str) -> bool {
 pub fn run_one(seed: u64, prop: &PropCfg, run: u64, known: &[KnownFinding]) -> RunResult {
     let mode = prop.modes[(run % prop.modes.len() as u64) as usize];
     let mut rng = Prng::for_run(seed, prop.id, run);
-    let (cfg, amt) = gen::world_for(mode, &mut rng);
+    let (mut cfg, amt) = gen::world_for(mode, &mut rng);
+    if prop.id == "C18" {
+        // the forwarding stub is the attacker of the C18 probes; it does not also trade there
+        cfg.contract_trader = false;
+    }
     let collect = COLLECT.load(Ordering::Relaxed);
     let mut res = RunResult {
         collected: BTreeMap::new(),
